@@ -1,9 +1,12 @@
 --------------------------- MODULE MC_KubePolicy ---------------------------
 (* The input universe of C11 and its export.                                                                   *)
-(* J1: TLC runs KubePolicy's state machine from every input below (one initial state each) and checks the       *)
-(*     oracle on every intermediate cluster of the generator model.                                            *)
-(* J2: the same enumeration is written out as ndjson (one abstract input per line); the Go harness concretises *)
-(*     each into a real LeaseID / manifest.Group / kube.Settings and runs the real client.Deploy on it.        *)
+(* TLC enumerates the universe below and writes it out as ndjson, one abstract input per line (MC_export.cfg,     *)
+(* one worker: TLC evaluates constant definitions once per worker). The same file is then read                  *)
+(* J1: by MC_KubeJ1 -- TLC runs KubePolicy's state machine from every input (one initial state each) and checks *)
+(*     the oracle on every intermediate cluster of the generator model (in parallel TLC runs over chunks);     *)
+(* J2: by the Go harness, which concretises each input into a real LeaseID / manifest.Group / kube.Settings    *)
+(*     and runs the real client.Deploy on it.                                                                  *)
+(* (MC_quick.cfg / MC_thorough.cfg can also model-check this module directly: Inputs <- MCInputs.)             *)
 (* The universe is a union of exhaustive slices (each exhausts some dimensions of the quantifier while the     *)
 (* others sit at seed-chosen background values) plus seed-chosen picks from the full product.                  *)
 EXTENDS KubePolicy, KubePicks, Json, SequencesExt
@@ -100,6 +103,10 @@ NumberedSeq == LET s == InputSeq IN [i \in 1..Len(s) |-> [s[i] EXCEPT !.id = i]]
 MCInputs == KRange(NumberedSeq)
 
 ASSUME ndJsonSerialize("inputs.ndjson", NumberedSeq)
+
+\* export-only run: no behaviour to explore
+ExportInit == cur = 0 /\ rnd = 0 /\ todo = <<>> /\ cluster = {}
+ExportNext == UNCHANGED vars
 ASSUME PrintT([universe |-> Len(InputSeq), A |-> Cardinality(SliceA), B |-> Cardinality(SliceB), C |-> Cardinality(SliceC),
                D |-> Cardinality(SliceD), E |-> Cardinality(SliceE), F |-> Cardinality(SliceF),
                leases |-> Cardinality(LeaseSet), exposeLists |-> Cardinality(ExpLists(MaxExpA))])
